@@ -31,6 +31,8 @@ type multiMember struct {
 	// selfRefKeys: the fields bound to these JSON keys are references of a document to ITSELF ("#"): their Go type is (a pointer to / a
 	// slice of pointers to) the struct that declares them
 	selfRefKeys []string
+	// noAlias: no `type X = Y` declaration is expected in this scenario (every type is reached under one name)
+	noAlias bool
 }
 
 func objSpec(ps ...*fam.Prop) *fam.Spec { return &fam.Spec{Kind: "object", Props: ps} }
@@ -259,6 +261,21 @@ func multiMembers() []multiMember {
 			files:  []*fam.FileSpec{{Name: "a.json", ID: "https://example.com/a", Root: ra}, {Name: "b.json", ID: "https://example.com/b", Root: rb}},
 			orders: [][]string{{"a.json"}, {"a.json", "b.json"}, {"b.json", "a.json"}},
 			outOf:  map[string]string{"a.json": "out.go", "b.json": "out.go"}, pkgOf: map[string]string{"out.go": "example.com/pkg/model"}})
+		// ... the titled document referenced as a whole TWICE: first as an allOf branch (which marks it as dereferenced), then by a plain
+		// property. -t changes identifiers only: the second reference finds the type under its title, no further declaration (alias)
+		// appears that a run without -t does not have
+		{
+			wb := objSpec(&fam.Prop{Label: "r", Spec: &fam.Spec{Kind: "integer"}, Required: true})
+			wb.Title, wb.ConcreteTitle = true, "bee thing"
+			wa := objSpec(
+				&fam.Prop{Label: "k", Spec: &fam.Spec{Kind: "boolean"}},
+				&fam.Prop{Label: "first", Concrete: "first", Spec: &fam.Spec{Kind: "object", AllOf: []*fam.Spec{{RefRootOf: "b.json", Kind: "object"}, objSpec(&fam.Prop{Label: "x", Spec: &fam.Spec{Kind: "string"}})}}},
+				&fam.Prop{Label: "second", Concrete: "second", Spec: &fam.Spec{RefRootOf: "b.json", Kind: "object"}})
+			out = append(out, multiMember{name: "titled document referenced as an allOf branch and then plainly, names from titles", cfg: tcfg, noAlias: true,
+				files:  []*fam.FileSpec{{Name: "a.json", ID: "https://example.com/a", Root: wa}, {Name: "b.json", ID: "https://example.com/b", Root: wb}},
+				orders: [][]string{{"a.json"}, {"a.json", "b.json"}},
+				outOf:  map[string]string{"a.json": "out.go", "b.json": "out.go"}, pkgOf: map[string]string{"out.go": "example.com/pkg/model"}})
+		}
 		// ... and with --schema-root-type for the referring file only
 		rcfg := base
 		rcfg.Mappings = []gen.Mapping{{ID: "https://example.com/a", Package: "example.com/pkg/model", Output: "out.go", RootType: "Renamed"}}
@@ -378,6 +395,16 @@ func ruleMultiSel(c *core.Ctx, want map[string]bool, floor int, words ...string)
 					issues = append(issues, w.SynIssues()...)
 					issues = append(issues, w.TypeCheckAll(c.Prog.Repo, mm.pkgOf)...)
 					issues = append(issues, checkRouting(mm, w, args)...)
+					if mm.noAlias {
+						for _, fm := range w.Models {
+							for tn, td := range fm.Types {
+								if td.Alias {
+									issues = append(issues, fam.Issue{Rule: "A-REL", Construct: "a naming option adds a type declaration (alias)",
+										Msg: fmt.Sprintf("the output declares `type %s = %s`: the document is reached under a second name (the reference site computes another identifier than the declaration site), so the naming option adds a declaration instead of only changing identifiers", tn, td.Type)})
+								}
+							}
+						}
+					}
 					for _, k := range mm.selfRefKeys {
 						for _, fm := range w.Models {
 							for sn, S := range fm.Structs {
